@@ -16,7 +16,7 @@ theorem tail_case0 (c : Ctx) (hr : c.rotl = rotl) (e : Env)
     (⟨e'.h0, e'.h1⟩ : Hash) = tailStep ⟨e.h0, e.h1⟩ [] := by
   simp only [murmurAsModelled, List.length, execSwitch, execStms, UExpr.eval, Env.set, Env.get, hr, hb, h1, h2,
     List.map, List.foldl, tailStep, le64_eq_xle', mixK1, mixK2]
-  simp [xle']
+  simp
 
 set_option maxHeartbeats 1000000 in
 theorem tail_case1 (c : Ctx) (hr : c.rotl = rotl) (e : Env)
